@@ -672,3 +672,156 @@ def interception_obligations(rep, tier, unit='ground:constructor-interception'):
         if intercepted != (name in DOCUMENTED_CONSTRUCTORS):
             wrongly.append((name, 'intercepted' if intercepted else 'not intercepted'))
     rep.add(unit, 'Name("a") is a constructor call exactly for the documented constructor names', 'ground', not wrongly, detail={'wrong': wrongly})
+
+
+# ---------------------------------------------------------------------------------------------- C13 inheritance (schematic)
+def _chain_worker(conn, ign, b_over, c_over, c_new, dotted, seq):
+    """builds A <- B <- C with the real Grammar() and evaluates the wiring obligations on the resulting objects"""
+    import importlib
+    import re
+    import sys
+    try:
+        from sourcer import Grammar
+        pre = f'vchain{seq}.' if dotted else f'vchain{seq}_'
+        names = [pre + 'A', pre + ('sub.B' if dotted else 'B'), pre + ('sub.C' if dotted else 'C')]
+        ign_stmt = {'none': '', 'named': 'ignore Sp{L} = /[ {L}]+/\n', 'anonymous': 'ignore /[ {L}]+/\n'}
+        descs = []
+        descs.append(f'grammar {names[0]}\n' + ign_stmt[ign[0]].format(L='a') +
+                     'start = [X, Y, K?]\nX = "x"\nY = "y"\nT(a) = a\nclass K {\n v: X\n}\nZ = T(Y)\n')
+        b = f'grammar {names[1]} extends {names[0]}\n' + ign_stmt[ign[1]].format(L='b')
+        b += {'no': '', 'plain': 'override X = "B"\n', 'super': 'override X = "B" | super.X\n'}[b_over]
+        b += 'NB = [X, Y]\n'
+        descs.append(b)
+        c = f'grammar {names[2]} extends {names[1]}\n' + ign_stmt[ign[2]].format(L='c')
+        c += {'no': '', 'plain': 'override X = "C"\n', 'super': 'override X = "C" | super.X\n'}[c_over]
+        c += ('NC = [Y, Z, NB]\n' if c_new else 'NC = "nc"\n')
+        descs.append(c)
+        mods = []
+        results = []
+        for lvl, d in enumerate(descs):
+            before = [dict(vars(m._ctx)) for m in mods]
+            before_mod = [dict(vars(m)) for m in mods]
+            m = Grammar(d, include_source=True)
+            mods.append(m)
+            # parent untouched by creating the derived grammar
+            for k, (pm, bc, bm) in enumerate(zip(mods[:-1], before, before_mod)):
+                same = vars(pm._ctx).keys() == bc.keys() and all(vars(pm._ctx)[a] is bc[a] for a in bc) \
+                    and vars(pm).keys() == bm.keys() and all(vars(pm)[a] is bm[a] for a in bm)
+                results.append((f'creating level {lvl + 1} leaves level {k + 1} (module and context) untouched', same, None))
+        defines_x = [True, b_over != 'no', c_over != 'no']
+        for lvl, m in enumerate(mods):
+            ctx = m._ctx
+            owner = max(k for k in range(lvl + 1) if defines_x[k])
+            results.append((f'level {lvl + 1}: _ctx._try_X is the implementation of the most derived level that defines X',
+                            ctx._try_X is vars(mods[owner])['_try_X'], None))
+            for r in ('Y', 'T', 'K', 'Z', 'start'):
+                results.append((f'level {lvl + 1}: inherited {r} is the base implementation', getattr(ctx, '_try_' + r) is vars(mods[0])['_try_' + r], None))
+            if lvl > 0:
+                results.append((f'level {lvl + 1}: _ctx._super_ctx is the context of level {lvl}', ctx._super_ctx is mods[lvl - 1]._ctx, None))
+                results.append((f'level {lvl + 1}: module-level _super_ctx is the context of level {lvl}', vars(m)['_super_ctx'] is mods[lvl - 1]._ctx, None))
+            # every _ctx.<attr> that any function body of a level <= lvl can read exists on this context
+            missing = []
+            for k in range(lvl + 1):
+                for attr in set(re.findall(r'\b_ctx\.([A-Za-z_][A-Za-z_0-9]*)', mods[k]._source_code)):
+                    if not hasattr(ctx, attr):
+                        missing.append((k + 1, attr))
+            results.append((f'level {lvl + 1}: every attribute read through the run-time context by code of levels <= {lvl + 1} exists', not missing, missing[:5]))
+            # super references are static: emitted as _super_ctx.<impl> resolved in the defining module, never through _ctx
+            dyn = re.findall(r'_ctx\._super_ctx\.', m._source_code.split('_ctx = _Context()')[0])
+            results.append((f'level {lvl + 1}: no super reference goes through the run-time context', not dyn, None))
+            has_ign = any(x != 'none' for x in ign[:lvl + 1])
+            results.append((f'level {lvl + 1}: _try__ignored present iff some level <= {lvl + 1} declares ignore', hasattr(ctx, '_try__ignored') == has_ign, None))
+            if has_ign and ign[lvl] == 'none':
+                results.append((f'level {lvl + 1}: without own ignore the skipper is the parent\'s', ctx._try__ignored is mods[lvl - 1]._ctx._try__ignored, None))
+            results.append((f'level {lvl + 1}: importlib finds the installed grammar', importlib.import_module(names[lvl]) is m, None))
+            # exported names of inherited rules are the parent's objects
+            results.append((f'level {lvl + 1}: Y is exported (inherited object or own)', hasattr(m, 'Y') and (lvl == 0 or m.Y is mods[0].Y), None))
+        # behaviour through each level (bounded, labelled so by the caller): what X means, late binding inside inherited rules
+        sp = ' ' if ign[0] != 'none' else ''
+        expect_x = {0: {'x'}, 1: {'x'} if b_over == 'no' else ({'B'} if b_over == 'plain' else {'B', 'x'})}
+        expect_x[2] = expect_x[1] if c_over == 'no' else ({'C'} if c_over == 'plain' else {'C'} | expect_x[1])
+        for lvl, m in enumerate(mods):
+            for tok in ('x', 'B', 'C'):
+                try:
+                    r = m.parse(tok + sp + 'y')
+                    got = True
+                except (m.ParseError, m.PartialParseError):
+                    got = False
+                except Exception as e:
+                    got = repr(e)
+                results.append((f'level {lvl + 1}: inherited start parses {tok!r} as X iff some definition visible at this level accepts it',
+                                got == (tok in expect_x[lvl]), {'got': got}))
+        conn.send(results)
+    except Exception:
+        import traceback
+        conn.send([('chain could be built', False, traceback.format_exc()[-600:])])
+    conn.close()
+
+
+def inheritance_obligations(rep, tier, unit='wiring:inheritance'):
+    import itertools
+    import multiprocessing as mp
+    ctx = mp.get_context('fork')
+    igns = [('none', 'none', 'none'), ('named', 'none', 'none'), ('anonymous', 'none', 'none'), ('named', 'named', 'none'),
+            ('anonymous', 'anonymous', 'anonymous'), ('none', 'named', 'anonymous'), ('named', 'none', 'named'), ('none', 'none', 'anonymous')]
+    if tier == 'thorough':
+        igns = list(itertools.product(('none', 'named', 'anonymous'), repeat=3))
+    seq = 0
+    for ign in igns:
+        for b_over, c_over in itertools.product(('no', 'plain', 'super'), repeat=2):
+            for dotted in ((False, True) if (ign == igns[0] or tier == 'thorough') else (False,)):
+                seq += 1
+                tag = f'[ignore={"/".join(ign)},B={b_over},C={c_over},dotted={int(dotted)}]'
+                parent, child = ctx.Pipe(duplex=False)
+                p = ctx.Process(target=_chain_worker, args=(child, ign, b_over, c_over, True, dotted, seq), daemon=True)
+                p.start()
+                child.close()
+                if parent.poll(20):
+                    res = parent.recv()
+                else:
+                    p.kill()
+                    res = [('chain is built and parses within 20 s (a mis-bound super loops forever)', False, 'timeout')]
+                p.join(1)
+                for name, ok, detail in res:
+                    kind = 'bounded' if 'parses' in name and 'inherited start' in name else 'schematic'
+                    rep.add(unit, f'{name} {tag}', 'schematic', bool(ok) if ok in (True, False) else False, detail={'detail': detail})
+
+
+def derived_start_obligations(rep, tier, unit='wiring:inheritance-start'):
+    """a derived grammar that overrides the start rule still skips leading ignored text when ANY ancestor declares ignore patterns,
+    and a derived grammar without a start of its own is entered at the nearest ancestor's start rule (any distance up the chain)"""
+    from sourcer import Grammar
+    from pyvc import runtime
+    import sys
+    base = 'grammar vds_A\nignore Sp = " "\nstart = W+\nW = /[a-z]+/\n'
+    Grammar(base)
+    cases = {
+        'fresh start, no own ignore': 'grammar vds_B1 extends vds_A\noverride start = [W, W]\n',
+        'start via super, no own ignore': 'grammar vds_B2 extends vds_A\noverride start = super.start << "."?\n',
+        'fresh start, own ignore too': 'grammar vds_B3 extends vds_A\nignore Cm = /#[^#]*#/\noverride start = [W, W]\n',
+    }
+    for name, desc in cases.items():
+        src = runtime.generated_module_source(desc)
+        tree = ast.parse(src)
+        fn = next(n for n in tree.body if isinstance(n, ast.FunctionDef) and n.name == '_try_start')
+        reqs = requests_in(fn)
+        rep.add(unit, f'derived start begins with the request for _ignored [{name}]', 'schematic',
+                bool(reqs) and reqs[0] == '_ctx._try__ignored', detail={'requests': reqs})
+    # start rule inherited over two levels
+    Grammar('grammar vds_M extends vds_A\nExtra = "e"\n')
+    src = runtime.generated_module_source('grammar vds_C extends vds_M\nMore = "m"\n')
+    tree = ast.parse(src)
+    fn = next(n for n in tree.body if isinstance(n, ast.FunctionDef) and n.name == 'parse')
+    rep.add(unit, 'a grammar two levels below the one that defines start is entered at that start rule', 'schematic',
+            '_ctx._try_start' in ast.unparse(fn), detail={'src': ast.unparse(fn)})
+    # module-level parse of a derived grammar forwards pos and fullparse
+    ok = any(isinstance(n, ast.Call) and ast.unparse(n.func) == '_run' and [ast.unparse(a) for a in n.args] == ['_ctx', 'text', 'pos', '_ctx._try_start', 'fullparse']
+             for n in ast.walk(fn)) and [a.arg for a in fn.args.args] == ['text', 'pos', 'fullparse'] and [ast.unparse(d) for d in fn.args.defaults] == ['0', 'True']
+    rep.add(unit, 'derived module parse(text, pos=0, fullparse=True) = _run(_ctx, text, pos, <start>, fullparse)', 'schematic', ok, detail={'src': ast.unparse(fn)})
+    # an override of a NAMED ignore rule is late-bound inside the inherited skipper
+    src_a = runtime.generated_module_source(base)
+    fa = next(n for n in ast.parse(src_a).body if isinstance(n, ast.FunctionDef) and n.name == '_try__ignored')
+    rep.add(unit, 'the skipper refers to named ignore rules through the run-time context (an override in a derived grammar takes effect)', 'schematic',
+            requests_in(fa) == ['_ctx._try_Sp'], detail={'requests': requests_in(fa)})
+    for m in [k for k in sys.modules if k.startswith('vds_')]:
+        sys.modules.pop(m, None)
